@@ -80,6 +80,15 @@ CHECKS += [
     },
 ]
 
+CHECKS += [
+    {
+        "property_id": "C04", "engine": "symx", "category": "model_checking",
+        "technique": "bounded symbolic execution of SLOS, both branches of full_probability_distribution, pdist_calc and Sampler.probability_distribution with symbolic circuit parameters; every 1e-9 threshold comparison forks; z3 decides feasibility and the inequalities (monomial-linearised QF_LRA relaxation first, then nlsat)",
+        "text": "For all reflectivities, phases and loss values on the listed shapes and all inputs within the photon bound, on every feasible threshold path: the SLOS kernel returns the definitional amplitudes on an arbitrary matrix; each backend's non-vacuum entries equal the loss-marginalised probability minus exactly the sub-threshold terms, are non-negative and never exceed the exact value; the sampler's distribution (real pdist_calc, also with arbitrary stubbed sub-distributions) sums to one within the truncation slack, keeps the full vacuum weight, and permanent and slos agree within that slack.",
+        "design_ref": "DESIGN.md section 4 C04", "note": SYMX_NOTE + " Solver 'unknown' on a branch is treated as feasible (over-approximation).",
+    },
+]
+
 _TODO = "check not built yet in this round; see DESIGN.md section 4 for the plan"
 NOT_APPLICABLE = [
     {"property_id": f"C{i:02d}", "reason": _TODO} for i in range(2, 20) if f"C{i:02d}" not in {c["property_id"] for c in CHECKS}
